@@ -1,15 +1,23 @@
 import QtVerif.Model.Proto
 import QtVerif.Model.PortIO
-/-! Line-protocol driver for the per-port I/O model (C14). Several ports, each with its own capacity.
+/-! Line-protocol driver for the per-port I/O model (C14). Several ports, each with its own capacity; every port is a
+stage system (`tstep true xfTable`: the submit-lock stage in front of the port slice).
 
   begin                      -> ok                       (no ports)
   port <cap> <lockFix 0|1>   -> ok <index>               (adds a port in its initial state)
   submit <p> <val>           -> ok <ticket> <dropped tickets, comma separated | ->
+                                (a call on a free submit lock of a port without transform: `enter` + `pass true`;
+                                 err not-enabled if the stage is not empty or a transform is set)
+  enter <p> <val>            -> ok <call id> <transform read at once | ->     (`-`: the call waits for the submit lock)
+  acquire <p>                -> ok <call id> <transform read>
+  pass <p> ok|fail           -> ok <call id> <ticket | -> <queued value | -> <dropped tickets | ->
+  settr <p> <k>              -> ok                       (the transform_write attribute becomes transform k; 0 = none)
+  xf <k> <val>               -> ok <value of transform k on val>   (the table, for the harness to cross-check)
   wtake <p>                  -> ok <ticket> <val> start|wait      (writerTake; `wait` = lock busy)
   wacq <p>                   -> ok <ticket> <val>        (writerAcquire)
   wend <p> ok|err            -> ok <ticket>
   wconfirm <p> | lwbegin <p> | lwend <p> | ldone <p> | rbegin <p> | rend <p>   -> ok
-  state <p>                  -> ok <pc> q=<tickets> wflag=<0|1> rflag=<0|1> rin=<n> win=<n> lock=<0|1>
+  state <p>                  -> ok <pc> q=<tickets> wflag=<0|1> rflag=<0|1> rin=<n> win=<n> lock=<0|1> stage=<ids> acq=<k|-> tr=<k>
   outcomes <p>               -> ok <ticket>:<ok|err|full>,…   (resolution order)
   an action that is not enabled -> err not-enabled ; unknown port -> err no-port
 -/
@@ -26,33 +34,87 @@ def fmtPc : Pc → String
 
 def b01 (b : Bool) : String := if b then "1" else "0"
 
-/-- Apply one action to port `p`; `fmt` renders the reply from the old and the new state of that port. -/
-def act (σ : Sys) (p : String) (a : Action) (fmt : State → State → String) : Sys × String :=
+/-- The value `None` (unavailable) as the harness hands it over; every transform leaves it as it is. -/
+def valNone : Int := -999999
+
+/-- The write transforms used by the harness (harness/oracle_c14.py: TRANSFORMS / xform), by index. -/
+def xfTable (k : Nat) (v : Int) : Int :=
+  if v = valNone then v else
+  match k with
+  | 2 => v * 10
+  | 3 => v + 1000
+  | 4 => if v > 150 then v else -v
+  | 5 => v * 2
+  | 6 => v * 10
+  | 7 => v + 5000
+  | 8 => if v > 150 then v + 20000 else -v
+  | _ => v
+
+abbrev DSys := List (Cfg × TState)
+
+/-- Apply the stage actions `as` (in turn) to port `p`; `fmt` renders the reply from the old and the new stage state. -/
+def tact (σ : DSys) (p : String) (as : List TAction) (fmt : TState → TState → String) : DSys × String :=
   match p.toNat? with
   | none => (σ, "bad-op")
   | some p =>
     match σ[p]? with
     | none => (σ, "err no-port")
-    | some (_, s) =>
-      match sysStep σ p a with
+    | some (c, t) =>
+      match texec true xfTable c t as with
       | none => (σ, "err not-enabled")
-      | some σ' =>
-        match σ'[p]? with
-        | some (_, s') => (σ', "ok" ++ fmt s s')
-        | none => (σ, "err no-port")
+      | some t' => (σ.set p (c, t'), "ok" ++ fmt t t')
 
-def dstep (σ : Sys) : List String → Sys × String
+/-- Apply one port action to port `p`; `fmt` renders the reply from the old and the new state of the port slice. -/
+def act (σ : DSys) (p : String) (a : Action) (fmt : State → State → String) : DSys × String :=
+  tact σ p [.port a] fun t t' => fmt t.port t'.port
+
+def fmtNewDrops (s s' : State) : String := fmtTks ((s'.drops.drop s.drops.length).map (·.e.tk))
+
+def dstep (σ : DSys) : List String → DSys × String
   | ["begin"] => ([], "ok")
   | ["port", cap, fx] =>
     match cap.toNat?, fx with
-    | some cap, "1" => (σ ++ [({ cap := cap, lockFix := true }, State.init)], s!"ok {σ.length}")
-    | some cap, "0" => (σ ++ [({ cap := cap, lockFix := false }, State.init)], s!"ok {σ.length}")
+    | some cap, "1" => (σ ++ [({ cap := cap, lockFix := true }, {})], s!"ok {σ.length}")
+    | some cap, "0" => (σ ++ [({ cap := cap, lockFix := false }, {})], s!"ok {σ.length}")
     | _, _ => (σ, "bad-op")
   | ["submit", p, v] =>
     match v.toInt? with
     | none => (σ, "bad-op")
-    | some v => act σ p (.submit v) fun s s' =>
-        s!" {s.nextTk} " ++ fmtTks ((s'.drops.drop s.drops.length).map (·.e.tk))
+    | some v =>
+      match p.toNat?.bind (σ[·]?) with
+      | some (_, t) =>
+        if t.stage.isEmpty && t.tr == 0 then
+          tact σ p [.enter v, .pass true] fun t t' => s!" {t.port.nextTk} " ++ fmtNewDrops t.port t'.port
+        else (σ, "err not-enabled")
+      | none => tact σ p [] fun _ _ => ""
+  | ["enter", p, v] =>
+    match v.toInt? with
+    | none => (σ, "bad-op")
+    | some v => tact σ p [.enter v] fun t t' =>
+        s!" {t.nextId} " ++ (match t.stage.isEmpty, t'.acq with | true, some k => toString k | _, _ => "-")
+  | ["acquire", p] => tact σ p [.acquire] fun t t' =>
+      match t.stage, t'.acq with
+      | k :: _, some tk => s!" {k.id} {tk}"
+      | _, _ => " ?"
+  | ["pass", p, r] =>
+    let fmt (ok : Bool) (t t' : TState) : String :=
+      match t.stage, t.acq with
+      | k :: _, some tk =>
+        if ok then s!" {k.id} {t.port.nextTk} {applied xfTable tk k.val} " ++ fmtNewDrops t.port t'.port
+        else s!" {k.id} - - -"
+      | _, _ => " ?"
+    match r with
+    | "ok" => tact σ p [.pass true] (fmt true)
+    | "fail" => tact σ p [.pass false] (fmt false)
+    | _ => (σ, "bad-op")
+  | ["settr", p, k] =>
+    match k.toNat? with
+    | none => (σ, "bad-op")
+    | some k => tact σ p [.setTr k] fun _ _ => ""
+  | ["xf", k, v] =>
+    match k.toNat?, v.toInt? with
+    | some k, some v => (σ, s!"ok {applied xfTable k v}")
+    | _, _ => (σ, "bad-op")
   | ["wtake", p] => act σ p .writerTake fun _ s' =>
       match s'.pc with
       | .writing e => s!" {e.tk} {e.val} start"
@@ -79,18 +141,21 @@ def dstep (σ : Sys) : List String → Sys × String
     | some p =>
       match σ[p]? with
       | none => (σ, "err no-port")
-      | some (_, s) =>
+      | some (_, t) =>
+        let s := t.port
         (σ, s!"ok {fmtPc s.pc} q={fmtTks (s.queue.map (·.tk))} wflag={b01 s.writingFlag} rflag={b01 s.reading} " ++
-            s!"rin={s.rIn} win={s.wIn} lock={b01 s.lockHeld}")
+            s!"rin={s.rIn} win={s.wIn} lock={b01 s.lockHeld} stage={fmtTks (t.stage.map (·.id))} " ++
+            s!"acq={match t.acq with | some k => toString k | none => "-"} tr={t.tr}")
   | ["outcomes", p] =>
     match p.toNat? with
     | none => (σ, "bad-op")
     | some p =>
       match σ[p]? with
       | none => (σ, "err no-port")
-      | some (_, s) =>
+      | some (_, t) =>
+        let s := t.port
         (σ, "ok " ++ (if s.resolved.isEmpty then "-" else
           ",".intercalate (s.resolved.map fun (t, o) => s!"{t}:{fmtOutcome o}")))
   | _ => (σ, "bad-op")
 
-def main : IO Unit := run dstep ([] : Sys)
+def main : IO Unit := run dstep ([] : DSys)
